@@ -1,4 +1,6 @@
 import Ivg.Lemmas.Selectors
+import Ivg.Props.C01
+import Ivg.Lemmas.GenSel
 import Ivg.Model.Arc
 import Ivg.Gen.Tie.EncoderFields
 import Ivg.Gen.Tie.RendererFields
@@ -45,6 +47,92 @@ theorem sel_agree_after_reset (arc : ArcFn F32 β) (posInf : F32) (e : Encoder) 
   Selectors.sel_agree_after_reset arc posInf e z vb pal h herr p hp
 
 end
+
+/-! ## first clause: rendering directly and rendering via encode + decode -/
+
+section
+variable {β : Type} [Arith β] [Wide F32 β]
+
+/-- Clause "directly into a Renderer, or into an Encoder whose bytes are then decoded into a Renderer,
+    produces the same rasteriser activity and paints up to coordinate quantisation": for every
+    protocol-respecting program `p` (any operands, last path possibly open) after `Reset vb pal`, the
+    Encoder's bytes decode, and a Renderer in ANY state `z` (any arc implementation) fed the decoded
+    calls ends in the same state and emits the same rasteriser operations as when fed, directly,
+    `Reset` and the program with every numeric operand replaced by what the format can hold
+    (`Q hi`, characterised in C08: the identity on operands with a short encoding, otherwise a
+    truncation to 30 bits of the float / 1/64 or 1/1024 grid of `quantize`). -/
+theorem render_via_bytes (arc : ArcFn F32 β) (posInf : F32) (z : Renderer F32 β)
+    (vb : ViewBox F32) (pal : Palette) (hi : Bool) (p : List (Call F32)) (endPath : Bool)
+    (hv : vbNeDefault vb = true → Header.VBValid vb) (hp : ∀ c ∈ pal.toList, c.validPremul = true)
+    (hproto : EncoderInv.Proto false p endPath) :
+    let e := ({ (({} : Encoder).reset vb pal) with hiRes := hi } : Encoder).run p
+    ∃ bs, e.bytes.2 = .ok bs ∧
+      z.run arc posInf (Dec.decode [] bs).1 =
+        z.run arc posInf (.reset (Header.rtViewBox vb) pal :: p.map (RoundTrip.Q hi)) := by
+  intro e
+  obtain ⟨bs, hb, hd⟩ := Ivg.Props.C01.encode_decode vb pal hi p endPath hv hp hproto
+  exact ⟨bs, hb, by rw [hd]⟩
+
+/-- … and EXACTLY the same activity and state when the operands are ones the format holds exactly
+    (`Q hi` and the viewBox round trip fix them; non-vacuous, see the example below). -/
+theorem render_direct_eq_via_bytes (arc : ArcFn F32 β) (posInf : F32) (z : Renderer F32 β)
+    (vb : ViewBox F32) (pal : Palette) (hi : Bool) (p : List (Call F32)) (endPath : Bool)
+    (hv : vbNeDefault vb = true → Header.VBValid vb) (hp : ∀ c ∈ pal.toList, c.validPremul = true)
+    (hproto : EncoderInv.Proto false p endPath)
+    (hq : p.map (RoundTrip.Q hi) = p) (hvb : Header.rtViewBox vb = vb) :
+    let e := ({ (({} : Encoder).reset vb pal) with hiRes := hi } : Encoder).run p
+    ∃ bs, e.bytes.2 = .ok bs ∧
+      z.run arc posInf (Dec.decode [] bs).1 = z.run arc posInf (.reset vb pal :: p) := by
+  intro e
+  obtain ⟨bs, hb, hd⟩ := render_via_bytes arc posInf z vb pal hi p endPath hv hp hproto
+  exact ⟨bs, hb, by rw [hd, hq, hvb]⟩
+
+/-- the selector masking that `Q` applies is invisible to a Renderer: it masks itself -/
+theorem renderer_masks (arc : ArcFn F32 β) (posInf : F32) (z : Renderer F32 β) (v : UInt8) :
+    z.step arc posInf (.setCSel (v &&& 0x3f)) = z.step arc posInf (.setCSel v) ∧
+    z.step arc posInf (.setNSel (v &&& 0x3f)) = z.step arc posInf (.setNSel v) := by
+  have h : v &&& 0x3f &&& 0x3f = v &&& 0x3f := by
+    apply UInt8.eq_of_toBitVec_eq; simp [BitVec.and_assoc]
+  constructor <;> simp [Renderer.step, h]
+
+end
+
+/-- operands on the grid: a program that the quantisation leaves alone -/
+def gridCalls : List (Call F32) :=
+  [.setCSel 5, .setNReg 0 false ⟨0x3f000000⟩, .startPath 2 ⟨0x3f800000⟩ ⟨0xc0000000⟩,
+   .d2 .L ⟨0x40400000⟩ ⟨0x40400000⟩, .d1 .h ⟨0x3e800000⟩, .closeEnd]
+set_option maxRecDepth 100000 in
+example : gridCalls.map (RoundTrip.Q false) = gridCalls ∧ Header.rtViewBox defaultViewBox = defaultViewBox := by
+  decide +kernel
+
+/-! ## the Generator's gradient helpers, which read the selectors back -/
+
+section
+variable {β : Type} [Arith β] [Wide F32 β]
+
+/-- Clause "including the Generator's gradient helpers which read the selector registers back": a
+    program of plain calls and gradient helpers (`generate.Generator.SetGradient` and the three shapes
+    built on it) driven into an Encoder and into a Renderer holding the same selectors delivers the
+    SAME calls to both — every read-back agrees — as long as the Encoder accepts what it is given; so
+    `render_via_bytes` applies to the delivered sequence. -/
+theorem generator_same_calls (arc : ArcFn F32 β) (posInf : F32) (ops : List GenSel.GenOp)
+    (e : Encoder) (z : Renderer F32 β) (hs : (e.cSel, e.nSel) = (z.cSel, z.nSel))
+    (herr : ∀ p, p <+: (GenSel.genRun GenSel.encDest e ops).2 → (e.run p).err = none) :
+    (GenSel.genRun GenSel.encDest e ops).2 = (GenSel.genRun (GenSel.renDest arc posInf) z ops).2 :=
+  (GenSel.gen_same_calls arc posInf ops e z hs herr).1
+
+end
+
+/-- a gradient with two stops written while CSEL = 3, NSEL = 62, then a path -/
+def exampleGen : List GenSel.GenOp :=
+  [.call (.setCSel 3), .call (.setNSel 62),
+   .grad 0 1 [(F32.zero, ⟨0xff, 0, 0, 0xff⟩), (⟨0x3f800000⟩, ⟨0, 0, 0xff, 0xff⟩)] Gen.Aff3.identity,
+   .call (.startPath 0 F32.zero F32.zero), .call .closeEnd]
+set_option maxRecDepth 100000 in
+example : (GenSel.genRun GenSel.encDest {} exampleGen).2.length = 19 ∧
+    (({} : Encoder).run (GenSel.genRun GenSel.encDest {} exampleGen).2).err = none ∧
+    ((GenSel.genRun GenSel.encDest {} exampleGen).1.cSel, (GenSel.genRun GenSel.encDest {} exampleGen).1.nSel) = (3, 62) := by
+  decide +kernel
 
 /-- the hypothesis of `sel_agree` in terms of the protocol automaton of C10 -/
 theorem accepted_of_violationFree (h : List (Call F32))
@@ -109,10 +197,9 @@ theorem reads_report (e : Encoder) :
 /-!
 ## Not proved in this file
 
-* "rendering directly equals rendering via encode + decode" (the first clause of C07) depends on the
-  encode/decode round trip C01 and is not addressed here.
-* The Generator and DestinationLogger clauses of C07 (selector tracking in `generate.Generator`, the
-  pass-through of a logging destination) are not addressed here.
+* "up to coordinate quantisation" is made precise as the operand map `Q hi` (C01/C08); how far the
+  pixels move under that map (continuity of the rasteriser) is not a statement about this repository.
+* `DestinationLogger` (a logging pass-through destination) is exercised by the correspondence runs only.
 * That `vmSel` is what the DECODER holds is by reading the format specification; the decoder model
   (`Ivg/Model/Decoder.lean`) delivers calls and keeps no selector state of its own.
 -/
@@ -123,4 +210,5 @@ end Ivg.Props.C07
   Ivg.Props.C07.sel_agree, Ivg.Props.C07.sel_agree_after_reset, Ivg.Props.C07.accepted_of_violationFree,
   Ivg.Props.C07.accepted_of_final, Ivg.Props.C07.both_follow_vm, Ivg.Props.C07.vm_mod64,
   Ivg.Props.C07.renderer_selectors_6bit, Ivg.Props.C07.encoder_selectors_6bit, Ivg.Props.C07.reads_report,
+  Ivg.Props.C07.render_via_bytes, Ivg.Props.C07.render_direct_eq_via_bytes, Ivg.Props.C07.renderer_masks, Ivg.Props.C07.generator_same_calls,
   Ivg.Gen.Tie.encoder_fields_tie, Ivg.Gen.Tie.renderer_fields_tie]
